@@ -2285,23 +2285,24 @@ class Fn(
         found_unselected = False
 
         for addr, value in x.items():
-            is_selected, subselection = selection.match(addr)
-            if is_selected:
-                if isinstance(value, dict) and subselection is not None:
-                    # Recursively filter nested choices
-                    selected_sub, unselected_sub = self.filter(value, subselection)
-                    if selected_sub is not None:
-                        selected[addr] = selected_sub
-                        found_selected = True
-                    if unselected_sub is not None:
-                        unselected[addr] = unselected_sub
-                        found_unselected = True
-                else:
-                    # Include the entire value in selected
-                    selected[addr] = value
+            # Thread the remaining selection down the address path and decide
+            # at the leaf, exactly as `regenerate` does (`() in remainder`).
+            _, subselection = selection.match(addr)
+            if isinstance(value, dict) and value:
+                # Recursively filter nested choices
+                selected_sub, unselected_sub = self.filter(value, subselection)
+                if selected_sub is not None:
+                    selected[addr] = selected_sub
                     found_selected = True
+                if unselected_sub is not None:
+                    unselected[addr] = unselected_sub
+                    found_unselected = True
+            elif not isinstance(value, dict) and () in subselection:
+                # Include the leaf value in selected
+                selected[addr] = value
+                found_selected = True
             else:
-                # Include the entire value in unselected
+                # Include the leaf value (or empty sub-map) in unselected
                 unselected[addr] = value
                 found_unselected = True
 
